@@ -53,8 +53,8 @@ ASSUMPTIONS = [
     "every history is a separate interpreter start (python -c ...) with its own PYTHONHASHSEED",
 ]
 BUDGET = {"quick": 75, "thorough": 420}
-NCASES = {"quick": 16, "thorough": 32}
-BATCH = {"quick": 16, "thorough": 48}
+NCASES = {"quick": 16, "thorough": 16}
+BATCH = {"quick": 16, "thorough": 96}
 CASE_TIMEOUT = 1500.0  # one case = one batch of recipes x all histories (dozens of child processes)
 EVAL_COUNTER = "pairs_compared"
 # about 40 % of what a complete run observes
